@@ -23,7 +23,8 @@ def header_flags(h):
     if h.endswith(".hpp") and not any(a.startswith("-std") for a in cl):
         cl = cl + ["-std=c++14"]
     # flags that write files or need other inputs are dropped
-    drop = {"--wrap-static-fns", "--experimental", "--depfile"}
+    # options documented as needing a cooperating callback to produce valid names are outside the claim
+    drop = {"--wrap-static-fns", "--experimental", "--depfile", "--represent-cxx-operators", "--use-distinct-char16-t"}
     out, skip = [], 0
     for i, f in enumerate(fl):
         if skip:
@@ -123,7 +124,7 @@ def run(ck):
             fl, cl = header_flags(h)
             jobs.append((p, fl, cl + ["-I", os.path.dirname(h), "-I", os.path.join(os.path.dirname(h), "..")], os.path.basename(h), m))
         # deep nesting
-        for depth in ([50, 200] if quick else [50, 100, 200, 400]):
+        for depth in ([50, 200] if quick else [50, 100, 150, 200]):      # the property speaks of nesting up to depth 200
             for kind, text in (("ptr", "int " + "*" * depth + "p;\n"), ("arr", "int a" + "[2]" * min(depth, 60) + ";\n"),
                                ("struct", "".join("struct s%d { " % i for i in range(depth)) + "int x;" + "".join(" } m%d;" % i for i in range(depth)) + "\n"),
                                ("paren", "int (" * depth + "v" + ")" * depth + ";\n"),
@@ -191,7 +192,7 @@ def run(ck):
                 where = re.search(r"panicked at ([^\n:]+:\d+)", err)
                 msg = re.search(r"panicked at [^\n]*\n([^\n]*)", err)
                 # keyed by file and message, not by line: an unrelated edit above the site must not turn a known panic into a new one
-                key = ((re.sub(r":\d+$", "", where.group(1).replace(REPO + "/", "")) + ":" + re.sub(r"[^A-Za-z]+", "-", (msg.group(1) if msg else "").split(":")[0])[:40].strip("-")) if where
+                key = ((re.sub(r"^/rustc/[0-9a-f]+/", "", re.sub(r":\d+$", "", where.group(1).replace(REPO + "/", ""))) + ":" + re.sub(r"[^A-Za-z]+", "-", (msg.group(1) if msg else "").split(":")[0])[:40].strip("-")) if where
                        else ("-".join(origin.split("-")[:2]) if origin.startswith("deep-") else "mutant"))
                 ck.violation("C12-%s:%s" % (cls, key), "generation ends with a %s instead of bindings or an error value (%s)" % (cls, (msg.group(1)[:100] if msg else "")), data)
             elif accepted and cls == "error":
